@@ -47,7 +47,7 @@ def _mk(ver, mode, m, turns, verdicts_out, cid, k=1, exc=False, kinds=None, out_
 
 def cases(tier, seed):
     i = 0
-    for mode in ("dialog", "single_call", "general", "passthrough"):
+    for mode in ("dialog", "single_call", "general", "passthrough", "multi_step"):
         for m, turns in ((1, 3), (2, 2)):
             for vs in itertools.product(["ok", "block", "rewrite"], repeat=m * turns):
                 i += 1
